@@ -354,13 +354,18 @@ class Outcome:
         if concrete or self.broken:
             rc = 1
             if concrete:
-                v = concrete[0]
-                path = os.path.join(REPLAY, "%s_%s.json" % (self.pid, re.sub(r"[^A-Za-z0-9_.-]", "_", v["key"])[:80]))
-                json.dump({"property": self.pid, "kind": "failing-input", "key": v["key"], "what": v["what"],
-                           "input": v["replay"], "broken_obligations": self.broken,
-                           "how_to_replay": "./check %s --replay %s" % (self.pid, path)},
-                          open(path, "w"), indent=1, default=str)
-                lines.append("VIOLATION property=%s replay=%s" % (self.pid, path))
+                # one line and one replay file per distinct failing input (by key), at most 12 per run
+                done_keys = set()
+                for v in concrete:
+                    if v["key"] in done_keys or len(done_keys) >= 12:
+                        continue
+                    done_keys.add(v["key"])
+                    path = os.path.join(REPLAY, "%s_%s.json" % (self.pid, re.sub(r"[^A-Za-z0-9_.-]", "_", v["key"])[:80]))
+                    json.dump({"property": self.pid, "kind": "failing-input", "key": v["key"], "what": v["what"],
+                               "input": v["replay"], "broken_obligations": self.broken,
+                               "how_to_replay": "./check %s --replay %s" % (self.pid, path)},
+                              open(path, "w"), indent=1, default=str)
+                    lines.append("VIOLATION property=%s replay=%s" % (self.pid, path))
             else:
                 path = os.path.join(REPLAY, "%s_broken_obligation.json" % self.pid)
                 json.dump({"property": self.pid, "kind": "broken-obligation", "broken_obligations": self.broken,
